@@ -430,3 +430,31 @@ def plant_specials(rng, s, lv, lay, v):
     for gi, g in enumerate(lv.groups):
         for e in v["groups"][gi]["entries"]:
             plant_specials(rng, s, g, lay["groups"][gi]["level"], e)
+
+
+def edge_schema():
+    """levels without non-constant fields: constant-only entries / messages with and without an explicit
+    blockLength, member-less entries and messages, entries holding only a nested group or only data"""
+    s = Schema("hs_edge", big_endian=False, sid=12)
+    s.add(TypeDef("messageHeader", "composite", members=[TypeDef(n, "type", prim="uint16") for n in ("blockLength", "templateId", "schemaId", "version")]))
+    s.add(TypeDef("dim", "composite", members=[TypeDef("blockLength", "type", prim="uint16"), TypeDef("numInGroup", "type", prim="uint16")]))
+    s.add(TypeDef("vd", "composite", members=[TypeDef("length", "type", prim="uint8"), TypeDef("varData", "type", prim="uint8", length=0)]))
+    s.add(TypeDef("K16", "type", prim="uint16", presence="constant", const_value="7"))
+    m = Message("E1", 1)
+    m.fields.append(Field("seq", 1, "uint32"))
+    g = Group("marks", 10, "dim", block_length=4); g.fields.append(Field("k", 1, "K16")); m.groups.append(g)
+    g = Group("tags", 11, "dim"); g.fields.append(Field("k", 1, "K16")); m.groups.append(g)
+    g = Group("empt", 12, "dim", block_length=3); m.groups.append(g)
+    g = Group("legs", 13, "dim"); g.fields.append(Field("px", 1, "uint16")); m.groups.append(g)
+    m.data.append(Data("note", 20, "vd"))
+    s.messages.append(m)
+    s.messages.append(Message("E2", 2, block_length=5))
+    m = Message("E3", 3, block_length=2); m.fields.append(Field("k", 1, "K16")); s.messages.append(m)
+    m = Message("E4", 4)
+    g = Group("outer", 10, "dim", block_length=2)
+    g2 = Group("inner", 11, "dim"); g2.fields.append(Field("k", 1, "K16")); g.groups.append(g2)
+    g.data.append(Data("d", 12, "vd"))
+    m.groups.append(g)
+    g = Group("onlydata", 13, "dim"); g.data.append(Data("d", 14, "vd")); m.groups.append(g)
+    s.messages.append(m)
+    return s
